@@ -30,6 +30,9 @@ pub enum Op {
     Read { hold_ms: u64 },
     Write { hold_ms: u64, commit: bool, poison: bool },
     Pause(u64),
+    /// a read or write request whose future is dropped after `polls` polls (the requester loses interest while
+    /// waiting); if the guard arrives in time it is released at once (a write guard without commit)
+    Abandon { write: bool, polls: u32 },
 }
 
 #[derive(Clone, Debug)]
@@ -50,6 +53,8 @@ pub struct Rec {
     /// write: logical time at which commit() was called (the guard is handed back at that moment)
     pub commit_call: Option<u64>,
     pub error: Option<String>,
+    /// the request future was dropped by its caller before a guard was obtained
+    pub cancelled: bool,
 }
 
 fn tick(clock: &AtomicU64) -> u64 {
@@ -61,10 +66,44 @@ async fn client_task(id: usize, lock: RwLock<Item>, script: Vec<Op>, remote: boo
         crate::simnet::bump_progress();
         match op {
             Op::Pause(ms) => tokio::time::sleep(Duration::from_millis(ms)).await,
+            Op::Abandon { write, polls } => {
+                let newv = ((id as u64 + 1) << 20) | (k as u64 + 1) | (1 << 19);
+                let idx = {
+                    let mut h = hist.lock().unwrap();
+                    h.push(Rec { client: id, kind: if write { "write" } else { "read" }, call: tick(&clock), acquired: None, released: None, value: if write { newv } else { 0 }, seen: 0, committed: false, commit_call: None, error: None, cancelled: false });
+                    h.len() - 1
+                };
+                if write {
+                    match crate::sched::CancelAt::new(lock.write(), polls).await {
+                        Some(Ok(g)) => {
+                            let mut h = hist.lock().unwrap();
+                            h[idx].acquired = Some(tick(&clock));
+                            h[idx].seen = g.id;
+                            h[idx].released = Some(tick(&clock));
+                            drop(g);
+                        }
+                        Some(Err(e)) => hist.lock().unwrap()[idx].error = Some(e.to_string()),
+                        None => hist.lock().unwrap()[idx].cancelled = true,
+                    }
+                } else {
+                    match crate::sched::CancelAt::new(lock.read(), polls).await {
+                        Some(Ok(g)) => {
+                            let mut h = hist.lock().unwrap();
+                            h[idx].acquired = Some(tick(&clock));
+                            h[idx].value = g.id;
+                            h[idx].released = Some(tick(&clock));
+                            drop(g);
+                        }
+                        Some(Err(e)) => hist.lock().unwrap()[idx].error = Some(e.to_string()),
+                        None => hist.lock().unwrap()[idx].cancelled = true,
+                    }
+                }
+                crate::simnet::bump_progress();
+            }
             Op::Read { hold_ms } => {
                 let idx = {
                     let mut h = hist.lock().unwrap();
-                    h.push(Rec { client: id, kind: "read", call: tick(&clock), acquired: None, released: None, value: 0, seen: 0, committed: false, commit_call: None, error: None });
+                    h.push(Rec { client: id, kind: "read", call: tick(&clock), acquired: None, released: None, value: 0, seen: 0, committed: false, commit_call: None, error: None, cancelled: false });
                     h.len() - 1
                 };
                 match lock.read().await {
@@ -95,7 +134,7 @@ async fn client_task(id: usize, lock: RwLock<Item>, script: Vec<Op>, remote: boo
                 let newv = ((id as u64 + 1) << 20) | (k as u64 + 1);
                 let idx = {
                     let mut h = hist.lock().unwrap();
-                    h.push(Rec { client: id, kind: "write", call: tick(&clock), acquired: None, released: None, value: newv, seen: 0, committed: false, commit_call: None, error: None });
+                    h.push(Rec { client: id, kind: "write", call: tick(&clock), acquired: None, released: None, value: newv, seen: 0, committed: false, commit_call: None, error: None, cancelled: false });
                     h.len() - 1
                 };
                 match lock.write().await {
@@ -140,7 +179,9 @@ async fn client_task(id: usize, lock: RwLock<Item>, script: Vec<Op>, remote: boo
 
 pub fn gen_script(rng: &mut Rng, n: usize) -> Vec<Op> {
     (0..n)
-        .map(|_| match rng.below(10) {
+        .map(|_| match rng.below(12) {
+            10 => Op::Abandon { write: true, polls: rng.below(6) as u32 },
+            11 => Op::Abandon { write: rng.chance(50), polls: rng.below(6) as u32 },
             0..=4 => Op::Read { hold_ms: *rng.pick(&[0u64, 0, 1, 3, 10]) },
             5..=7 => Op::Write { hold_ms: *rng.pick(&[0u64, 0, 1, 5]), commit: rng.chance(75), poison: rng.chance(12) },
             _ => Op::Pause(rng.below(6)),
@@ -155,7 +196,7 @@ pub fn check_history(h: &[Rec], final_value: Option<u64>) -> Vec<(String, String
         if let Some(e) = &r.error {
             bad.push(("C17:operation-error".to_string(), format!("client {} {}: {e}", r.client, r.kind)));
         }
-        if r.acquired.is_none() && r.error.is_none() {
+        if r.acquired.is_none() && r.error.is_none() && !r.cancelled {
             bad.push((
                 "C17:request-pending-at-quiescence".to_string(),
                 format!("client {} {} requested at t={} is still pending at quiescence although every guard was released", r.client, r.kind, r.call),
